@@ -132,6 +132,11 @@ var fuzzSeeds = []string{
 	"m a 1\nM MATCH a WITH PRODUCTS FROM nosuch\nM ALLOW ?\nP REQUIRE a",
 	// one step referenced WITH MATERIALS and WITH PRODUCTS in the same call, its two maps differing
 	"m a 1\nm b 2\np b 2\ndm a 1\ndm b 1\ndp b 2\ndp a 2\nM MATCH a WITH MATERIALS FROM dst\nM MATCH b WITH PRODUCTS FROM dst\nM DISALLOW *\nP MATCH b WITH PRODUCTS FROM dst\nP MATCH * WITH MATERIALS FROM dst",
+	// '*' followed by a class / escape chunk that has to match at the very end of the name
+	"p src/main.c 1\np ok.txt 1\nP ALLOW ok.txt\nP DISALLOW *.[ch]",
+	"m mod.pyc 1\nm build7 2\nm a[x] 1\nM ALLOW *.py[co]\nM ALLOW *[0-9]\nM ALLOW *\\[x\\]\nM DISALLOW *",
+	"m pre/main.c 1\ndp out/main.c 1\nM MATCH *\\.c IN pre WITH PRODUCTS IN out FROM dst\nM DISALLOW *",
+	"m dir/x.c 1\np dir/x.c 2\np xya 1\nM MODIFY dir/*.[ch]\nM REQUIRE dir/x.c\nP CREATE *?[ab]\nP ALLOW *[!d]c\nP DISALLOW *",
 	// a MATCH rule referring to the item itself; several items' worth of rule kinds in one list
 	"m x 1\np x 1\np y 3\nM MATCH x WITH PRODUCTS FROM item\nM DISALLOW *\nP MATCH x WITH MATERIALS FROM item\nP CREATE y\nP DISALLOW *",
 }
@@ -165,4 +170,25 @@ func FuzzVerifyArtifacts(f *testing.F) {
 			t.Fatalf("VerifyArtifacts differs from the queue algorithm of the oracle (verdict | queue after material rules | after product rules)\nscenario:\n%s\nimpl=%s\nwant=%s", text, impl, want)
 		}
 	})
+}
+
+// the star-tail table is consistent with the oracle's glob (run by hand: go test -tags verif -run TestStarTailTable ./c03)
+func TestStarTailTable(t *testing.T) {
+	for _, st := range starTails {
+		g, ok := gparse(st.Pat)
+		if !ok || !okPath(st.Pat) {
+			t.Errorf("%q: not a pattern of the oracle's domain", st.Pat)
+			continue
+		}
+		for _, h := range st.Hits {
+			if !gden(g, h) || !okPath(h) {
+				t.Errorf("%q should match %q", st.Pat, h)
+			}
+		}
+		for _, m := range st.Misses {
+			if gden(g, m) {
+				t.Errorf("%q should not match %q", st.Pat, m)
+			}
+		}
+	}
 }
